@@ -146,3 +146,75 @@ Proof.
   intros. eexists. split; [vm_compute; reflexivity|]. split; [vm_compute; reflexivity|].
   split; [eexists; split; vm_compute; reflexivity|]. vm_compute. reflexivity.
 Qed.
+
+(* ------------------------------------------------------------------ WHICH Batch() CALL READS WHAT
+   (Model/ScanBatches.v, Proofs/ScanBatchBoundaryProofs.v).  For every scan node (empty / full /
+   prefix / range / multi-get), EVERY store, every filter oracle, every batch size B >= 1:
+   BuildPlan and then Batch() polled until the empty batch, every call run on its own, returns
+   EXACTLY [scan_polls_spec flt B sc d]: per Batch() call the storage calls it issued and the pairs
+   it returned.  The spec is Model/ScanProj.v's batch loop over the slots of the scan, each slot
+   annotated with the call that reads it (Next for a pair the cursor yields, Get for a listed key,
+   stored or not), plus -- when fewer than B slots are left -- the one Next that discovers the
+   end (it returns the first pair beyond the region, or nil).  A prefix / range scan that has seen
+   its end is silent when polled again, a full scan asks its exhausted cursor again (Next -> nil). *)
+From KV Require Import Model.ScanBatches Proofs.ScanBatchBoundaryProofs Proofs.RunCountsProofs.
+
+Theorem scan_batches_agree :
+  forall (flt : kvp -> bool) (B fuel : nat) (sc : scan) (d : store) (l0 : list scall),
+  1 <= B -> List.length d + plan_keys (PScan sc) < fuel ->
+  exists l, scan_polls true flt B fuel (PScan sc) (SState d l0 None)
+            = (Storage.Ok (scan_init_calls sc ++ scan_init_calls sc, scan_polls_spec flt B sc d), SState d (l0 ++ l)%list None)
+            /\ l = ((scan_init_calls sc ++ scan_init_calls sc) ++ List.concat (map fst (scan_polls_spec flt B sc d)))%list.
+Proof. exact scan_polls_agree_lemma. Qed.
+Print Assumptions scan_batches_agree.
+
+(* one Batch() call of a cursor scan / a multi-get, exactly (rows, cursor, end flag, calls) *)
+Theorem scan_batch_call_exact_cursor : forall (flt : kvp -> bool) (B : nat), 1 <= B -> forall f sc c ret d,
+  rspec (cursor_batch_loop flt B f sc c ret) d (fun x l =>
+    match batch_pass flt B f [cursor_term (scan_stop sc) (crest c)]
+                     (annot (PipelineS.take_until (scan_stop sc) (crest c))) ret with
+    | (rows, log, rest', e) =>
+        fst (fst x) = rows /\ snd x = e /\ l = log /\
+        csnap (snd (fst x)) = csnap c /\
+        List.length (crest (snd (fst x))) <= List.length (crest c) /\
+        (e = false -> rest' = annot (PipelineS.take_until (scan_stop sc) (crest (snd (fst x)))) /\
+                      cursor_term (scan_stop sc) (crest (snd (fst x))) = cursor_term (scan_stop sc) (crest c)) /\
+        (e = true -> (forall kv, scan_stop sc kv = false) -> crest (snd (fst x)) = [])
+    end).
+Proof. exact cursor_loop_exact. Qed.
+Print Assumptions scan_batch_call_exact_cursor.
+
+(* REFUTED: `the storage calls of a LIMIT statement are a prefix of the calls of the statement
+   without the LIMIT`.  Batch mode, full scan, a window larger than the data: the LIMIT
+   statement issues ONE MORE call, a Next on the exhausted cursor (it returns nil: no key is
+   read, so [reads_within_region_text] is not affected).  Replayed on the Go code. *)
+Theorem limit_calls_prefix_batch_refuted :
+  let d := [("a","x");("ab","y")]%string in
+  let lg fp := slog (snd (ScanIO.run_stmt true (fun _ => true) snd 32 30 BatchMode (StSelect fp) (sinit d None))) in
+  lg (FProj (PScan SFull)) = [CCursor; CSeek ""; CCursor; CSeek ""; CNext (Some "a"); CNext (Some "ab"); CNext None; CNext None]%string /\
+  lg (FLimit 0 100 (FProj (PScan SFull))) = (lg (FProj (PScan SFull)) ++ [CNext None])%list.
+Proof. exact limit_calls_prefix_batch_refuted_lemma. Qed.
+Print Assumptions limit_calls_prefix_batch_refuted.
+
+(* non-vacuity: a multi-get with an absent key and a filter that rejects a pair, B = 2:
+   the first Batch() reads a, b (keeps a: 1 < B rows, goes on), then c, zz (zz absent; keeps c:
+   2 rows, returns); the second Batch() has no key left: no call, empty batch *)
+Example scan_batches_agree_mget_nonvacuous :
+  let d := [("a","x");("b","y");("c","x");("d","x")]%string in
+  let flt := fun kv : kvp => String.eqb (snd kv) "x" in
+  scan_polls_spec flt 2 (SMget ["a";"b";"c";"zz"]%string) d
+  = [([CGet "a"; CGet "b"; CGet "c"; CGet "zz"], [("a","x");("c","x")]); ([], [])]%string /\
+  scan_polls true flt 2 10 (PScan (SMget ["a";"b";"c";"zz"]%string)) (sinit d None)
+  = (Storage.Ok ([], [([CGet "a"; CGet "b"; CGet "c"; CGet "zz"], [("a","x");("c","x")]); ([], [])]),
+     SState d [CGet "a"; CGet "b"; CGet "c"; CGet "zz"] None)%string.
+Proof. vm_compute. split; reflexivity. Qed.
+
+(* non-vacuity: a range scan, B = 2, filter keeps everything: [a;ab] | [abc] + the Next that
+   finds "b" beyond the range | silent *)
+Example scan_batches_agree_range_nonvacuous :
+  let d := [("a","1");("ab","2");("abc","3");("b","4");("c","5")]%string in
+  scan_polls_spec (fun _ => true) 2 (SRange (Some "a") (Some "abd"))%string d
+  = [([CNext (Some "a"); CNext (Some "ab")], [("a","1");("ab","2")]);
+     ([CNext (Some "abc"); CNext (Some "b")], [("abc","3")]);
+     ([], [])]%string.
+Proof. vm_compute. reflexivity. Qed.
